@@ -118,6 +118,11 @@ def same(real, model):
     return True
 
 
+def text_mode(content):
+    """what open(name).read() returns for a file with these characters: universal newlines (a line ends with LF, CR LF or CR)"""
+    return content.replace("\r\n", "\n").replace("\r", "\n")
+
+
 def gen_script(rng, files, tmp):
     """-> (tokens, expected ops or None)  expected is known for well-formed scripts (the oracle)"""
     toks, exp = [], []
@@ -163,14 +168,14 @@ def gen_script(rng, files, tmp):
         elif c == "typefile":
             fn = rng.choice([f for f in files if f.endswith(".txt")])
             toks += [c, fn]
-            for ch in files[fn]:
+            for ch in text_mode(files[fn]):
                 if ch == "\r":
                     continue
                 exp += [("keyPress", "enter" if ch == "\n" else "tab" if ch == "\t" else ch), ("t",)]
         elif c == "pastefile":
             fn = rng.choice([f for f in files if f.endswith(".txt")])
             toks += [c, fn]
-            exp.append(("paste", files[fn].replace("\r\n", "\n")))
+            exp.append(("paste", text_mode(files[fn])))
         elif c == "capture":
             fn = rng.choice(["out.png", "a/b.jpg", "x.jpeg", "s.gif", "t.bmp", ".hidden.png", "a.b.png"])
             toks += [c, fn]
@@ -231,7 +236,7 @@ def run(tier, seed, model):
     cwd = os.getcwd()
     os.chdir(tmp)
     try:
-        files = {"t1.txt": "ab\r\nc\td\n", "empty.txt": "", "u.txt": "x y"}
+        files = {"t1.txt": "ab\r\nc\td\n", "empty.txt": "", "u.txt": "x y", "cr.txt": "ab\rcd\r", "mixed.txt": "a\tb\nc\rd\ne\r\r\nf"}
         for fn, content in files.items():
             with open(fn, "w", newline="") as f:
                 f.write(content)
@@ -335,7 +340,7 @@ def run(tier, seed, model):
                     f = todo.pop()
                     if f in seen:
                         continue
-                    seen[f] = allf[f]
+                    seen[f] = text_mode(allf[f]) if f in files else allf[f]
                     todo += [t for t in allf if t in allf[f]]
                 return [[k, v] for k, v in seen.items()]
 
